@@ -32,26 +32,24 @@ def _sum_by_group_sorted(indices, *values):
     # Index defines whether a specific index has already appeared in the index array before.
     index = np.ones(len(indices), 'bool')
     index[:-1] = indices[1:] != indices[:-1]
+    # first position of every group of equal indices
+    starts = np.flatnonzero(np.concatenate(([True], index[:-1])))
 
     # make indices unique for output
     indices = indices[index]
 
     val = list(values)
     for i, _ in enumerate(val):
-        # sum up values, chose only those with unique indices and then subtract the previous sums
-        # --> this way for each index the sum of all values belonging to this index is returned
+        # sum up the values of each group directly (a running sum over the whole array with
+        # subsequent subtraction loses digits if single entries are very large)
         nans = np.isnan(val[i])
         if np.any(nans):
             np.nan_to_num(val[i], copy=False)
-            np.cumsum(val[i], out=val[i])
-            val[i] = val[i][index]
             still_na = nans[index]
-            val[i][1:] = val[i][1:] - val[i][:-1]
+            val[i] = np.add.reduceat(val[i], starts) if len(val[i]) else val[i]
             val[i][still_na] = np.nan
         else:
-            np.cumsum(val[i], out=val[i])
-            val[i] = val[i][index]
-            val[i][1:] = val[i][1:] - val[i][:-1]
+            val[i] = np.add.reduceat(val[i], starts) if len(val[i]) else val[i]
     return [indices] + val
 
 
